@@ -230,7 +230,7 @@ class C10(Prop):
     title = "Prompt-injection gates block every signature hit, stay blocked, and never crash"
     extractors = ["E5-gates", "py2lean-gates"]
     fixed_prefix = 1
-    quick_budget = 1300
+    quick_budget = 1000
     thorough_budget = 24000
     quick_deadline_s = 100
     thorough_deadline_s = 800
@@ -452,6 +452,11 @@ class C10(Prop):
                 lines.append("forget " + kx)
             elif op == "import":
                 abs_ = [self._rand_sig(rng, 3) for _ in range(rng.choice([0, 1, 2, 3]))]
+                if hist and rng.random() < 0.4:      # an antibody for something this membrane has already seen
+                    h = rng.choice(hist)
+                    if h:
+                        a = rng.randrange(len(h))
+                        abs_.append(self._sigtok(h[a:a + rng.randint(1, 6)], rng.randint(1, 3), False))
                 for s in abs_:
                     learned[s.split("/")[0]] = s
                 lines.append(" ".join(["import"] + abs_))
@@ -466,6 +471,11 @@ class C10(Prop):
                 lines.append(f"hook {rng.choice(['none', 'ok', 'R', 'K', 'E', 'A'])}")
             elif op == "addsig":
                 s = self._rand_sig(rng, 3)
+                if hist and rng.random() < 0.4:
+                    h = rng.choice(hist)
+                    if h:
+                        a = rng.randrange(len(h))
+                        s = self._sigtok(h[a:a + rng.randint(1, 6)], rng.randint(1, 3), False)
                 sigs.append(s)
                 lines.append("addsig " + s)
             elif op == "adv":
@@ -611,10 +621,13 @@ class C10(Prop):
         bad, badv, emb, ok = "jailbreak", "JailBreak", "well, jailbreak it", "hello"
         alpha = ["filter " + hexs(bad), "filter " + hexs(badv), "filter " + hexs(emb), "filter " + hexs(ok),
                  "thr 3", "thr 0", "forget " + hexs("jailbreak"), "learn " + self._sigtok("jailbreak", 2, False),
-                 "adv 60000000", "adv 59875000", "hook R", "hook A"]
+                 "adv 60000000", "adv 59875000", "hook R", "hook A",
+                 "import " + self._sigtok("jailbreak", 3, False), "addsig " + self._sigtok("hello", 2, False)]
         cases = []
-        for cfg in ["mem 2 none 1", "mem 2 1 1", "mem 3 2 1 " + self._sigtok("jailbreak", 3, False)]:
-            for k in range(1, depth + 1):
+        cfgs = ["mem 2 none 1", "mem 2 1 1", "mem 3 2 1 " + self._sigtok("jailbreak", 3, False),
+                "mem 2 none 0 " + self._sigtok("jailbreak", 2, False)]
+        for ci, cfg in enumerate(cfgs):
+            for k in range(1, (depth if ci < 2 else 3) + 1):
                 for ops in itertools.product(alpha, repeat=k):
                     cases.append({"lines": [cfg] + list(ops), "note": f"exhaustive depth {k}"})
         shipped = []
@@ -648,8 +661,9 @@ class C10(Prop):
                          "3 warm-up calls + burst of 8", "cases": retune},
                 {"name": "every shipped signature (membrane, innate) x every instance of the vetted table x every "
                          "threshold x 5-7 case/embedding variants", "cases": shipped},
-                {"name": f"membrane: all histories of <= {depth} ops over a 12-op alphabet (learn/forget/threshold/hook/"
-                         f"time/variants of one signature) x 3 configurations", "cases": cases}]
+                {"name": f"membrane: all histories of <= {depth} ops over a 14-op alphabet (learn/forget/import/"
+                         f"addsig/threshold/hook/time/variants of one signature) x 2 configurations, <= 3 ops x 2 more "
+                         f"(incl. enable_adaptive=False)", "cases": cases}]
 
     # ----------------------------------------------------------------------------------------------------------
     # implementation
